@@ -47,6 +47,7 @@ class CmdRec(object):
         self.cancelled = False       # the harness called .cancel() on it (caller-side timeout)
         self.fired_chunk = None      # index of the delivery chunk during which it fired
         self.fired_stage = None      # 'submit' | 'deliver' | 'loss' | ...
+        self.occ = 0                 # number of earlier submissions with the same command text
         self.line_chunks = []
 
 
@@ -77,7 +78,8 @@ class Session(object):
         self._rx = b""
         self.server_lines = []          # complete command lines received (bytes, no CRLF)
         self.script = []                # boot replies, by position
-        self.replies = {}               # command line (bytes) -> (code, parts); lines are unique
+        self.replies = {}               # command line (bytes) -> [(code, parts), ...] in submission order
+        self.served = {}                # command line (bytes) -> how many of them were answered
         self.reply_for_line = []        # what the server answered, in order
         self.items = []                 # stream items in order: (kind, index, n_lines)
         self.reply_ends = []            # absolute stream offset at which reply n ends
@@ -87,6 +89,7 @@ class Session(object):
         self.stage = "init"
         self.exceptions = []            # (stage, chunk_no, repr)
         self.submit_order = []          # indices in submission order
+        self.submitted_texts = []       # command texts (bytes) in submission order
         self.write_checks = []          # (k, replies_completed_at_write)
         self.boot_writes = 0
         self.lost = False
@@ -113,7 +116,14 @@ class Session(object):
             self._produce_reply(n, line)
 
     def _produce_reply(self, n, line):
-        rep = self.replies.get(line)
+        rep = None
+        q = self.replies.get(line)
+        if q is not None:
+            k = self.served.get(line, 0)
+            if k < len(q):
+                # the protocol issues FIFO: the k-th arrival of a text belongs to its k-th submission
+                rep = q[k]
+                self.served[line] = k + 1
         if rep is None and n < self._n_boot:
             rep = self.script[n]
         if rep is None:
@@ -183,9 +193,12 @@ class Session(object):
         """submit one command through the public API"""
         spec = rec.spec
         self.submit_order.append(rec.idx)
+        c = spec["cmd"]
+        cb = c if isinstance(c, bytes) else c.encode("ascii")
+        rec.occ = self.submitted_texts.count(cb)
+        self.submitted_texts.append(cb)
         if spec.get("reply") is not None:
-            c = spec["cmd"]
-            self.replies[c if isinstance(c, bytes) else c.encode("ascii")] = tuple(spec["reply"])
+            self.set_reply(cb, tuple(spec["reply"]), append=True)
         rec.submitted_t = self.clock.tick()
         self.trace.append(("S", rec.idx, stage or self.stage))
         try:
@@ -193,6 +206,12 @@ class Session(object):
                 # public per-line API: GETINFO <key> with a line callback
                 assert spec["cmd"].startswith("GETINFO ")
                 d = self.proto.get_info_incremental(spec["cmd"][8:], lambda l, rec=rec: self._line(rec, l))
+            elif spec.get("api") == "quit":
+                assert spec["cmd"] == "QUIT"
+                d = self.proto.quit()
+            elif spec.get("api") == "signal":
+                assert spec["cmd"].startswith("SIGNAL ")
+                d = self.proto.signal(spec["cmd"][7:])
             elif spec.get("perline"):
                 d = self.proto.queue_command(spec["cmd"], lambda l, rec=rec: self._line(rec, l))
             else:
@@ -208,6 +227,14 @@ class Session(object):
         rec.outcome = self.aud.watch(d, "cmd%d" % rec.idx)
         d.addBoth(lambda _, rec=rec: self._fired(rec))
 
+    def set_reply(self, line, reply, append=False):
+        """script the reply to a command text (append: one more submission of the same text)"""
+        if append:
+            self.replies.setdefault(line, []).append(reply)
+        else:
+            self.replies[line] = [reply]
+            self.served.pop(line, None)
+
     def _line(self, rec, line):
         rec.lines.append(line)
         rec.line_chunks.append(self.chunk_no)
@@ -217,6 +244,7 @@ class Session(object):
             if w[0] == "line" and w[1] == rec.idx and w[2] == k:
                 self.pending_when.remove(other)
                 self.submit(other, "linecb")
+        return rec.spec.get("cb_ret")       # what the application's line callback returns (None unless asked)
 
     def _fired(self, rec):
         if rec.fired_chunk is None:
@@ -317,12 +345,14 @@ class Session(object):
     def post_boot_writes(self):
         return self.transport.writes[self.boot_writes:]
 
-    def line_index(self, cmd):
-        """position (in arrival order at the server) of command line `cmd`, or None"""
+    def line_index(self, cmd, occ=0):
+        """position (in arrival order at the server) of the occ-th arrival of command line `cmd`, or None"""
         b = cmd if isinstance(cmd, bytes) else cmd.encode("ascii")
         for i, l in enumerate(self.server_lines):
             if l == b:
-                return i
+                if occ == 0:
+                    return i
+                occ -= 1
         return None
 
     def reply_end_chunk(self, line_idx):
